@@ -76,22 +76,46 @@ typedef struct outcome {
     int ok;         /* call reported success */
     int same;       /* 1: output decodes to input, 0: differs, -1: n/a */
     long val;       /* scalar result */
+    long adv;       /* encoders: bytes the sizing function advertised for this input (-1: n/a) */
+    long written;   /* encoders: bytes the call reports as written */
+    long foff;      /* encoders: offset of a fault relative to the destination */
 } outcome;
+
+/* Encoders write into a destination of exactly the advertised size that ends
+ * at an inaccessible page: the caller sized the buffer before the call, from
+ * the sizing function, and the allocation failure happens inside the call. */
+static gbuf g_tight;
+static uint8_t *tight_dst(outcome *o, size_t adv) {
+    g_tight = gb_alloc(adv);
+    memset(g_tight.p, 0x6B, adv);
+    o->adv = (long)adv;
+    return g_tight.p;
+}
+static void tight_done(outcome *o, size_t w, uint8_t *copy_to) {
+    o->written = o->f ? -1 : (long)w;
+    o->foff = o->f == 1 ? gb_fault_off(&g_tight) : -1000000;
+    if (!o->f && w && (long)w <= o->adv) {
+        memcpy(copy_to, g_tight.p, w);
+    }
+    gb_free(&g_tight);
+}
 
 /* returns outcome of api on scenario; decoding of produced output is done
  * with the shim off (no injection) */
 static outcome run_api(const char *api, const scen *s) {
-    outcome o = {0, 0, -1, 0};
+    outcome o = {0, 0, -1, 0, -1, -1, -1000000};
     static uint8_t buf[1 << 18], buf2[1 << 18];
     static uint64_t ys[5200];
     size_t n = s->n;
     memset(ys, 0x77, sizeof(ys));
     if (!strcmp(api, "DictEncode")) {
         size_t w = 0;
-        o.f = FAULTED(w = varintDictEncode(buf, s->xs, n));
+        uint8_t *dst = tight_dst(&o, varintDictEncodedSize(s->xs, n));
+        o.f = FAULTED(w = varintDictEncode(dst, s->xs, n));
+        tight_done(&o, w, buf);
         o.ok = w > 0;
         o.val = (long)w;
-        if (o.ok && !o.f) {
+        if (o.ok && !o.f && (long)w <= o.adv) {
             size_t r = varintDictDecodeInto(buf, w, ys, n);
             o.same = r == n && !memcmp(ys, s->xs, n * 8);
         }
@@ -160,11 +184,13 @@ static outcome run_api(const char *api, const scen *s) {
             }
         } else {
             size_t r = 0;
-            o.f = FAULTED(r = varintDictDecodeInto(buf, w, ys, n));
+            gbuf out = gb_alloc(n * 8); /* an output array of exactly n elements */
+            o.f = FAULTED(r = varintDictDecodeInto(buf, w, (uint64_t *)out.p, n));
             o.ok = r > 0;
             if (o.ok && !o.f) {
-                o.same = r == n && !memcmp(ys, s->xs, n * 8);
+                o.same = r == n && !memcmp(out.p, s->xs, n * 8);
             }
+            gb_free(&out);
         }
     } else if (!strcmp(api, "PFORComputeThreshold")) {
         varintPFORMeta m, ref;
@@ -183,10 +209,15 @@ static outcome run_api(const char *api, const scen *s) {
         varintPFORMeta m;
         memset(&m, 0, sizeof(m));
         size_t w = 0;
-        o.f = FAULTED(w = varintPFOREncode(buf, s->xs, (uint32_t)n, 95, &m));
+        varintPFORMeta sm;
+        memset(&sm, 0, sizeof(sm));
+        varintPFORComputeThreshold(s->xs, (uint32_t)n, 95, &sm);
+        uint8_t *dst = tight_dst(&o, varintPFORSize(&sm));
+        o.f = FAULTED(w = varintPFOREncode(dst, s->xs, (uint32_t)n, 95, &m));
+        tight_done(&o, w, buf);
         o.ok = w > 0;
         o.val = (long)w;
-        if (o.ok && !o.f) {
+        if (o.ok && !o.f && (long)w <= o.adv) {
             varintPFORMeta dm;
             memset(&dm, 0, sizeof(dm));
             int df = GUARDED(varintPFORDecode(buf, ys, &dm));
@@ -211,10 +242,12 @@ static outcome run_api(const char *api, const scen *s) {
         }
         if (!strcmp(api, "FloatEncode")) {
             size_t w = 0;
-            o.f = FAULTED(w = varintFloatEncode(buf, dx, n, VARINT_FLOAT_PRECISION_FULL,
+            uint8_t *dst = tight_dst(&o, varintFloatMaxEncodedSize(n, VARINT_FLOAT_PRECISION_FULL));
+            o.f = FAULTED(w = varintFloatEncode(dst, dx, n, VARINT_FLOAT_PRECISION_FULL,
                                                 VARINT_FLOAT_MODE_DELTA_EXPONENT));
+            tight_done(&o, w, buf);
             o.ok = w > 0;
-            if (o.ok && !o.f) {
+            if (o.ok && !o.f && (long)w <= o.adv) {
                 size_t r = varintFloatDecode(buf, n, dy);
                 o.same = r == w && !memcmp(dx, dy, n * 8);
             }
@@ -222,12 +255,14 @@ static outcome run_api(const char *api, const scen *s) {
             size_t w = varintFloatEncode(buf, dx, n, VARINT_FLOAT_PRECISION_FULL,
                                          VARINT_FLOAT_MODE_COMMON_EXPONENT);
             size_t r = 0;
-            memset(dy, 0x11, sizeof(dy));
-            o.f = FAULTED(r = varintFloatDecode(buf, n, dy));
+            gbuf out = gb_alloc(n * 8); /* an output array of exactly n elements */
+            memset(out.p, 0x11, n * 8);
+            o.f = FAULTED(r = varintFloatDecode(buf, n, (double *)out.p));
             o.ok = r > 0;
             if (o.ok && !o.f) {
-                o.same = r == w && !memcmp(dx, dy, n * 8);
+                o.same = r == w && !memcmp(dx, out.p, n * 8);
             }
+            gb_free(&out);
         }
     } else if (!strcmp(api, "AdaptiveCountUnique")) {
         size_t u = 0;
@@ -241,15 +276,17 @@ static outcome run_api(const char *api, const scen *s) {
         memset(&m, 0, sizeof(m));
         if (!strncmp(api, "AdaptiveEncode", 14)) {
             size_t w = 0;
+            uint8_t *dst = tight_dst(&o, varintAdaptiveMaxSize(n));
             if (type < 0) {
-                o.f = FAULTED(w = varintAdaptiveEncode(buf, s->xs, n, &m));
+                o.f = FAULTED(w = varintAdaptiveEncode(dst, s->xs, n, &m));
             } else {
-                o.f = FAULTED(w = varintAdaptiveEncodeWith(buf, s->xs, n,
+                o.f = FAULTED(w = varintAdaptiveEncodeWith(dst, s->xs, n,
                                                            (varintAdaptiveEncodingType)type, &m));
             }
+            tight_done(&o, w, buf);
             o.ok = w > 0;
             o.val = (long)w;
-            if (o.ok && !o.f) {
+            if (o.ok && !o.f && (long)w <= o.adv) {
                 size_t r = 0;
                 int df = GUARDED(r = varintAdaptiveDecode(buf, ys, n, NULL));
                 o.same = !df && r == n && !memcmp(ys, s->xs, n * 8);
@@ -260,11 +297,13 @@ static outcome run_api(const char *api, const scen *s) {
                                                            (varintAdaptiveEncodingType)type, &m);
             size_t r = 0;
             (void)w;
-            o.f = FAULTED(r = varintAdaptiveDecode(buf2, ys, n, NULL));
+            gbuf out = gb_alloc(n * 8); /* an output array of exactly n elements */
+            o.f = FAULTED(r = varintAdaptiveDecode(buf2, (uint64_t *)out.p, n, NULL));
             o.ok = r > 0;
             if (o.ok && !o.f) {
-                o.same = r == n && !memcmp(ys, s->xs, n * 8);
+                o.same = r == n && !memcmp(out.p, s->xs, n * 8);
             }
+            gb_free(&out);
         }
     } else {
         fprintf(stderr, "unknown api %s\n", api);
@@ -297,6 +336,9 @@ static void codec_faults(const char *api, const scen *s) {
         ev_int("same", o.same);
         ev_int("leak", o.f ? 0 : shim_live());
         ev_int("injected", g_inj);
+        ev_int("adv", o.adv);
+        ev_int("written", o.written);
+        ev_int("foff", o.foff);
         ev_end();
     }
     g_plan = 0;
@@ -391,7 +433,12 @@ int main(int argc, char **argv) {
                                  "AdaptiveDecode1", "AdaptiveDecode2", "AdaptiveDecode3", "AdaptiveDecode4",
                                  "AdaptiveDecode5"};
     size_t idx = 0;
+    /* VERIF_ALLOC_ENC: only the encoders (the size clauses of C03 under allocation failures) */
+    int enc_only = getenv("VERIF_ALLOC_ENC") != NULL;
     for (size_t a = 0; a < sizeof(apis) / sizeof(apis[0]); a++) {
+        if (enc_only && (!strstr(apis[a], "Encode") || strstr(apis[a], "EncodedSize"))) {
+            continue;
+        }
         for (int s = 0; s < 5; s++) {
             /* forced BITMAP only on its documented domain */
             if ((!strcmp(apis[a], "AdaptiveEncode4") || !strcmp(apis[a], "AdaptiveDecode4")) && s != 3) {
@@ -427,6 +474,9 @@ int main(int argc, char **argv) {
             R.name = R.namebuf;
             R.n = n;
             codec_faults("AdaptiveEncodeA", &R);
+            if (enc_only) {
+                continue;
+            }
             codec_faults("AdaptiveDecodeA", &R);
             codec_faults("AdaptiveCountUnique", &R);
         }
@@ -480,7 +530,7 @@ int main(int argc, char **argv) {
         {"andnot", fill4097, 2, {"AndNot", 0, 0, "K2"}},
         {"randnot", few, 2, {"RAndNot", 0, 0, "K1"}},
     };
-    for (size_t b = 0; b < sizeof(B) / sizeof(B[0]); b++) {
+    for (size_t b = 0; b < sizeof(B) / sizeof(B[0]) && !enc_only; b++) {
         if (idx++ % nshards != shard) {
             continue;
         }
